@@ -57,6 +57,8 @@ func keyGroup(k int) int {
 		return 4
 	case SecLocal, SecReader, SecRangeKey:
 		return 5
+	case SecLocObj, SecLocObjReader:
+		return 6
 	}
 	return 0
 }
